@@ -14,9 +14,9 @@ EXTENDS Integers, Sequences, TLC, Json, IOUtils
 VARIABLES d
 
 Ends == {"null", "int", "bool", "arr"}
-Defs == {"", "m", "+", "g", "s", "m+gs", "M", "G", "a", ">"}     \* M: m with two parameters, G: get without parameters (overriding with a different parameter count), a: a method named add (a Feeny spelling used as an ordinary name)
+Defs == {"", "m", "+", "g", "s", "m+gs", "M", "G", "a", ">", "F", "mF"}     \* F: a FIELD named m (fields and methods are separate namespaces), mF: both a field m and a method m; M: m with two parameters, G: get without parameters (overriding with a different parameter count), a: a method named add (a Feeny spelling used as an ordinary name)
 Chains == UNION {[1..n -> Defs] : n \in 0..3}
-Calls == {"m1", "m0", "m2", "plus", "and", "index", "setindex", "get", "set", "zz", "field", "eqnull", "ne5", "feq", "fneq", "add1", "plus0", "plus2", "lt3", "gt1", "ge1"}
+Calls == {"m1", "m0", "m2", "plus", "and", "index", "setindex", "get", "set", "zz", "field", "fieldm", "eqnull", "ne5", "feq", "fneq", "add1", "plus0", "plus2", "lt3", "gt1", "ge1"}
 Kinds == {"var", "arg", "field", "elem", "this"}
 Dispatch == {<<"dispatch", e, c>> \o ch : e \in Ends, c \in Calls, ch \in Chains}
 Alias == {<<"alias", target, k1, k2, mut>> : target \in {"obj", "arr"}, k1 \in Kinds, k2 \in Kinds, mut \in {"setfield", "setelem", "method"}}
